@@ -25,6 +25,11 @@ mod sixel_tests;
 #[cfg(test)]
 mod tests;
 
+/// Maximum nesting of macros invoking macros.
+const MAX_MACRO_DEPTH: usize = 16;
+/// Maximum number of characters a macro may hold, and that one invocation may replay.
+pub(crate) const MAX_MACRO_SPACE: usize = 0x7FFF;
+
 #[derive(Debug, Clone)]
 pub enum EngineState {
     Default,
@@ -143,6 +148,8 @@ pub struct Parser {
     pub parse_string: String,
     pub macro_dcs: String,
     pub bs_is_ctrl_char: bool,
+    macro_depth: usize,
+    macro_chars: usize,
 }
 
 impl Default for Parser {
@@ -165,6 +172,8 @@ impl Default for Parser {
             last_char: '\0',
             hyper_links: Vec::new(),
             bs_is_ctrl_char: false,
+            macro_depth: 0,
+            macro_chars: 0,
         }
     }
 }
@@ -1455,11 +1464,26 @@ impl Parser {
         } else {
             return;
         };
+        // macros may invoke macros: limit the nesting and what one invocation can expand to
+        if self.macro_depth >= MAX_MACRO_DEPTH {
+            log::error!("Macro nesting too deep, ignoring invocation of macro {}", id);
+            return;
+        }
+        if self.macro_depth == 0 {
+            self.macro_chars = 0;
+        }
+        self.macro_depth += 1;
         for ch in m.chars() {
+            self.macro_chars += 1;
+            if self.macro_chars > MAX_MACRO_SPACE {
+                log::error!("Macro expansion too long, aborting macro {}", id);
+                break;
+            }
             if let Err(err) = self.print_char(buf, current_layer, caret, ch) {
                 log::error!("Error during macro invocation: {}", err);
             }
         }
+        self.macro_depth -= 1;
     }
 
     fn execute_aps_command(&self, _buf: &mut Buffer, _caret: &mut Caret) {
